@@ -511,7 +511,7 @@ class Evaluator:
                 # a statement kind the evaluator does not know that can leave the function: treating it as falling through
                 # would invent or lose exits
                 from .loader import AnalysisError
-                raise AnalysisError('%s:%d: statement kind %s is not modelled and contains exits'
+                raise AnalysisError('ENGINE', '%s:%d: statement kind %s is not modelled and contains exits'
                                     % (fr.fn.module.relpath if fr.fn else '?', st.lineno, type(st).__name__))
             self._havoc_targets(st, fr, 'unsupported statement %s' % type(st).__name__)
             return FALL
@@ -545,27 +545,28 @@ class Evaluator:
                 return ast.BoolOp(op=ast.Or(), values=[test_of(q) for q in pat.patterns])
             if isinstance(pat, ast.MatchAs) and pat.pattern is None and pat.name is None:
                 return ast.Constant(value=True)
-            raise AnalysisError('%s: match pattern %s is not modelled' % (where(), type(pat).__name__))
+            raise AnalysisError('ENGINE', '%s: match pattern %s is not modelled' % (where(), type(pat).__name__))
 
-        chain = []      # innermost last
-        for case in st.cases:
+        rest = []       # statements that stand for the cases not yet consumed (built from the last case backwards)
+        for case in reversed(st.cases):
             pat, body = case.pattern, list(case.body)
             if isinstance(pat, ast.MatchAs) and pat.pattern is None and pat.name is not None:
+                # a capture always matches and binds - also when its guard then fails
+                bind = ast.Assign(targets=[ast.Name(id=pat.name, ctx=ast.Store())], value=ast.Name(id=tmp, ctx=ast.Load()))
                 if case.guard is not None:
-                    raise AnalysisError('%s: capture pattern with a guard is not modelled' % where())
-                test = ast.Constant(value=True)
-                body = [ast.Assign(targets=[ast.Name(id=pat.name, ctx=ast.Store())], value=ast.Name(id=tmp, ctx=ast.Load()))] + body
+                    stmts = [bind, ast.If(test=case.guard, body=body, orelse=rest)]
+                else:
+                    stmts = [bind] + body
             else:
                 test = test_of(pat)
                 if case.guard is not None:
                     test = ast.BoolOp(op=ast.And(), values=[test, case.guard])
-            chain.append((test, body))
-        node = None
-        for test, body in reversed(chain):
-            node = ast.If(test=test, body=body, orelse=[node] if node is not None else [])
-            ast.copy_location(node, st)
-            ast.fix_missing_locations(node)
-        res = self.st_If(node, fr) if node is not None else FALL
+                stmts = [ast.If(test=test, body=body, orelse=rest)]
+            for x in stmts:
+                ast.copy_location(x, st)
+                ast.fix_missing_locations(x)
+            rest = stmts
+        res = self.block(rest, fr) if rest else FALL
         fr.env.pop(tmp, None)
         if r is not FALL:
             return _replace_fall(r, res) if res is not FALL else r
@@ -1809,6 +1810,14 @@ class Evaluator:
                 parts.append(X.to_str(self, self.expr(v.value, fr), fr))
         return T.cat(*parts) if parts else T.const('')
 
+    def ex_NamedExpr(self, e, fr):
+        # `(name := value)`: binds in the enclosing function and is the value
+        v = self.expr(e.value, fr)
+        if T.tag(v) == 'raise':
+            return v
+        self.assign(e.target, _strip_raise(v) if (T.tag(v) == 'phi' and _has_raise(v)) else v, fr)
+        return v
+
     def ex_Lambda(self, e, fr):
         a = e.args
         if a.vararg or a.kwarg or a.kwonlyargs or a.posonlyargs:
@@ -2439,6 +2448,13 @@ def bounds_of(t, facts, _depth=0):
             hi = 256 ** n - 1
     elif T.is_op(t, 'SK_ADD_INT') or (T.is_op(t, 'MOD') and t[3] == T.CURVE_N):
         lo, hi = 0, N_VALUE - 1
+    elif (T.is_op(t, 'FIND') or T.is_op(t, 'RFIND')) and len(t) == 4 and T.is_const(t[2]) and isinstance(t[2][1], (str, bytes)):
+        # position of x in a constant text: -1 (absent) .. len-1; a single character known to differ from every letter is absent
+        lo, hi = -1, max(len(t[2][1]) - 1, -1)
+        x = t[3]
+        if isinstance(t[2][1], str) and T.type_of(x) == 'str' and T.length_of(x) == 1 and facts is not None \
+                and all(T.not_(T.eq(x, T.const(ch))) in facts for ch in set(t[2][1])):
+            hi = -1
     if T.is_op(t, 'ADD') and _depth < 6:
         tl = th = 0
         for x in t[2:]:
